@@ -441,7 +441,18 @@ fn real_lexer_checks(rep: &mut NReport, p: &str) {
         // as a simulated process (hash seed from the text, simulated clock): which repairs are
         // found, and in which order, is then a function of the text alone
         let pol = crate::seams::ClockPolicy { tick_ns: 1_000, jumps: vec![] };
-        let (r, _) = crate::seams::sim_process(fnv(p.as_bytes()), Some(&pol), || lrpar::RTParserBuilder::<u32, DefaultLexerTypes<u32>>::new(grm, st).parse_map(&lexer, &|_| (), &|_, _| ()).1);
+        // The same lexer object the queries above went to is handed to the simulated process (this
+        // thread waits for it): by address, so that the harness builds whether or not the type is
+        // `Sync` - a second `iter()` on it must yield the same lexemes as the first.
+        struct Shared<T>(*const T);
+        unsafe impl<T> Send for Shared<T> {}
+        unsafe impl<T> Sync for Shared<T> {}
+        let sh = Shared(&lexer as *const _);
+        let (r, _) = crate::seams::sim_process(fnv(p.as_bytes()), Some(&pol), || {
+            let sh = &sh;
+            let lexer: &LRNonStreamingLexer<DefaultLexerTypes<u32>> = unsafe { &*sh.0 };
+            lrpar::RTParserBuilder::<u32, DefaultLexerTypes<u32>>::new(grm, st).parse_map(lexer, &|_| (), &|_, _| ()).1
+        });
         if let crate::seams::SimOutcome::Ok(errs) = r {
             for e in errs {
                 if let LexParseError::ParseError(pe) = &e {
